@@ -176,6 +176,34 @@ func (e *Exec) scenarioShape(path string, t types.Type, a string) ([]altFn, bool
 			delete(s.Fresh, r.Cell)
 			return SliceV{Arr: r, Len_: n, Cap: n}
 		}, a)
+	case "types": // types(a:object;b:string,null): a slice of *schemas.Type with those type lists
+		return one(func(s *State) Val {
+			stT := w.namedType("pkg/schemas", "Type")
+			var els []Val
+			for _, spec := range strings.Split(strings.Join(args, ","), ";") {
+				spec = strings.TrimSpace(spec)
+				if spec == "" {
+					continue
+				}
+				p := strings.SplitN(spec, ":", 2)
+				var tl []Val
+				for _, tn := range strings.Split(p[1], ",") {
+					tl = append(tl, lit(strings.TrimSpace(tn)))
+				}
+				ar := s.alloc(&Agg{Elems: tl})
+				delete(s.Fresh, ar.Cell)
+				tr := s.alloc(mkStruct(stT, map[string]Val{"Type": SliceV{Arr: ar, Len_: len(tl), Cap: len(tl)}}))
+				delete(s.Fresh, tr.Cell)
+				s.CellTypes[tr.Cell] = stT
+				els = append(els, tr)
+			}
+			if len(els) == 0 {
+				return SliceV{}
+			}
+			r := s.alloc(&Agg{Elems: els})
+			delete(s.Fresh, r.Cell)
+			return SliceV{Arr: r, Len_: len(els), Cap: len(els)}
+		}, a)
 	case "atoms": // atoms(n): a slice of n unknown strings
 		n := 0
 		fmt.Sscan(args[0], &n)
